@@ -174,29 +174,110 @@ Inductive Matches : list bytes -> list bytes -> Prop :=
 | M_lit : forall p pat path, Matches pat path -> Matches (p :: pat) (p :: path).
 
 (* ------------------------------------------------------------------ *)
+(* The stored user: auth.Save of a new / an existing name               *)
+
+Inductive access_right : Type := PullRight | PushRight.
+
+(* auth.User: the exported fields that matter here and the two compiled matcher lists *)
+Record user : Type := mkUser {
+  u_admin : bool;
+  u_pw : bytes;
+  u_push : bytes;
+  u_pull : bytes;
+  u_pushm : list matcher;
+  u_pullm : list matcher
+}.
+
+(* the argument of auth.Save(src, updatePassword) *)
+Record save : Type := mkSave {
+  s_admin : bool;
+  s_pw : bytes;
+  s_push : bytes;
+  s_pull : bytes;
+  s_updpw : bool
+}.
+
+(* initMatchers(access, &dest): appends to whatever dest holds *)
+Definition init_matchers_into (dest : list matcher) (access : bytes) : list matcher :=
+  dest ++ init_matchers compile access.
+
+(* User.init: administrator default on the access strings (with the flag the
+   struct holds at that moment), matcher lists reset, then rebuilt *)
+Definition user_init (u : user) : user :=
+  let pull := admin_default (u_admin u) (u_pull u) in
+  let push := admin_default (u_admin u) (u_push u) in
+  let pushm := [] in                              (* u.pushMatchers = nil *)
+  let pullm := [] in                              (* u.pullMatchers = nil *)
+  mkUser (u_admin u) (u_pw u) push pull
+         (init_matchers_into pushm push) (init_matchers_into pullm pull).
+
+(* User.CopyFrom(src, withPassword): password rule, admin flag, access strings, then init *)
+Definition copy_from (u src : user) (with_pw : bool) : user :=
+  user_init (mkUser (u_admin src) (if with_pw then u_pw src else u_pw u)
+                    (u_push src) (u_pull src) (u_pushm u) (u_pullm u)).
+
+(* manager.Save for one name: newu.init(); existing name -> CopyFrom, new name -> the struct itself *)
+Definition save_go (st : option user) (s : save) : option user :=
+  let newu := user_init (mkUser (s_admin s) (s_pw s) (s_push s) (s_pull s) [] []) in
+  match st with
+  | Some u => Some (copy_from u newu (s_updpw s))
+  | None => Some newu
+  end.
+
+(* User.ValidatePermission on the stored matchers *)
+Definition validate_user (u : user) (r : access_right) (path : bytes) : bool :=
+  let ms := match r with PushRight => u_pushm u | PullRight => u_pullm u end in
+  match ms with
+  | [] => false
+  | _ => let p := trim_space path in existsb (fun m => match_go m p) ms
+  end.
+
+(* what the statement says about a user as currently saved *)
+Definition spec_save (s : save) (r : access_right) (path : bytes) : bool :=
+  spec_permit (s_admin s) (match r with PushRight => s_push s | PullRight => s_pull s end) path.
+
+Definition last_save (saves : list save) : option save :=
+  match rev saves with s :: _ => Some s | [] => None end.
+
+(* ------------------------------------------------------------------ *)
 (* Cases and the oracle applied to the implementation                   *)
 
-(* a case asks one compiled right / pattern about many paths *)
+(* a case asks one compiled right / pattern / stored user about many paths *)
 Inductive c16case : Type :=
 | CUser (admin : bool) (right : bytes) (paths : list bytes)   (* auth.User + ValidatePermission *)
-| CPattern (mask : bytes) (paths : list bytes).               (* NewPathMatcher(mask).Match *)
+| CPattern (mask : bytes) (paths : list bytes)                (* NewPathMatcher(mask).Match *)
+| CHist (saves : list save) (paths : list bytes).             (* auth.Save of one name, repeatedly; then Get + ValidatePermission: push, pull per path *)
+
+Definition both_rights (f : access_right -> bytes -> bool) (paths : list bytes) : list bool :=
+  flat_map (fun p => [f PushRight p; f PullRight p]) paths.
 
 Definition run_case (c : c16case) : list bool :=
   match c with
   | CUser admin rt paths => map (validate_go admin rt) paths
   | CPattern mask paths => let m := compile mask in map (match_go m) paths
+  | CHist saves paths =>
+      match fold_left save_go saves None with
+      | Some u => both_rights (validate_user u) paths
+      | None => both_rights (fun _ _ => false) paths          (* auth.Get(name) == nil *)
+      end
   end.
 
 Definition run_case_prefix (c : c16case) : list bool :=
   match c with
   | CUser admin rt paths => map (validate_go_prefix admin rt) paths
   | CPattern mask paths => let m := compile_prefix mask in map (match_go m) paths
+  | CHist _ _ => run_case c
   end.
 
 Definition spec_case (c : c16case) : list bool :=
   match c with
   | CUser admin rt paths => map (spec_permit admin rt) paths
   | CPattern mask paths => map (spec_pattern mask) paths
+  | CHist saves paths =>
+      match last_save saves with
+      | Some s => both_rights (spec_save s) paths             (* the user as currently saved, nothing else *)
+      | None => both_rights (fun _ _ => false) paths
+      end
   end.
 
 (* answers on the wire: one byte per path, 1 permitted / 0 refused (the harness
